@@ -99,8 +99,23 @@ func c04Case(c *core.Case) {
 	// ---- logical content
 	labelCounts := map[string]int{}
 	names := []string{"a", "b", "c", "name", "id", "svc", "blk"}
-	logical, _ := litBodyLevel(r, 1, gen.BodyOpts{MaxDepth: 1, MaxItems: 6, MaxLabels: 2, LabelLevel: 0, FixedLabels: labelCounts,
+	logical, _ := litBodyLevel(r, 1, gen.BodyOpts{MaxDepth: 1, MaxItems: 6, MaxLabels: 4, LabelLevel: 0, FixedLabels: labelCounts,
 		AttrNames: names, BlockTypes: []string{"svc", "blk", "nested", "a", "name"}})
+	if gen.Chance(r, 0.3) {
+		// sibling blocks whose label sequences share a prefix (in JSON they share
+		// the objects of that prefix)
+		for _, blk := range logical.Blocks() {
+			if len(blk.Labels) >= 1 {
+				for n := 1 + r.Intn(2); n > 0; n-- {
+					labels := append([]string(nil), blk.Labels...)
+					labels[len(labels)-1] = labels[len(labels)-1] + fmt.Sprint(n)
+					nb, _ := litBodyLevel(r, 1, gen.BodyOpts{MaxDepth: 0, MaxItems: 2, AttrNames: []string{"a", "b"}, FixedLabels: labelCounts})
+					logical.Items = append(logical.Items, &gen.Item{Block: &gen.Block{Type: blk.Type, Labels: labels, Body: nb}})
+				}
+				break
+			}
+		}
+	}
 	items := logical.Items
 	if len(items) == 0 {
 		return
@@ -198,6 +213,22 @@ func c04Case(c *core.Case) {
 			return
 		}
 		impls = append(impls, c04Impl{"json", jf.Body, items})
+		// other admissible encodings of the same content: array-form bodies,
+		// blocks grouped by type, label objects shared between sibling blocks
+		for k := 0; k < 2; k++ {
+			enc := &gen.JSONEnc{R: r, ExprJSON: litJSON, LabelCounts: labelCounts, OrderPreserving: true}
+			esrc := enc.Body(logical, true)
+			ef, ed := hcljson.Parse([]byte(esrc), "e.json")
+			if ed.HasErrors() {
+				c.Violation("json-rendering-rejected", fmt.Sprintf("%s: %s", trunc(esrc, 300), diagStr(ed)), nil)
+				return
+			}
+			form := "object"
+			if strings.HasPrefix(strings.TrimSpace(esrc), "[") {
+				form = "array"
+			}
+			impls = append(impls, c04Impl{"json(" + form + "-form encoding)", ef.Body, items})
+		}
 	}
 	// merged: split the items over 2-4 files of mixed syntax
 	nfiles := 2 + r.Intn(3)
@@ -282,6 +313,7 @@ func c04Case(c *core.Case) {
 	}
 	var refSig string
 	var refErr bool
+	nativeConsumed := map[bool]bool{}
 	for ii, im := range impls {
 		c.Count("impl:" + strings.SplitN(im.name, "[", 2)[0])
 		// expected per this implementation's order
@@ -365,11 +397,69 @@ func c04Case(c *core.Case) {
 			_, rem2, d2 := im.body.PartialContent(blocksOnly)
 			ja, jd2 := rem2.JustAttributes()
 			c.Evals(2)
-			if d2.HasErrors() || jd2.HasErrors() || len(ja) != len(attrSet) {
+			if strings.Contains(im.name, "array-form") {
+				// json/spec.md: in the dynamic-attributes mode a single JSON object is
+				// always required; an array-form body is answered with an error
+				if !jd2.HasErrors() {
+					c.Violation("remainder-just-attributes/json-array-form-accepted", fmt.Sprintf("%s: JustAttributes of an array-form body reports no error (json/spec.md requires a single object in that mode)", im.name), nil)
+					return
+				}
+				c.Count("remainder-just-attributes:array-form-rejected-as-specified")
+			} else if d2.HasErrors() || jd2.HasErrors() || len(ja) != len(attrSet) {
 				c.Violation("remainder-just-attributes/"+implKind(im.name), fmt.Sprintf("%s: after consuming every block type, JustAttributes of the remainder gives %d attributes (the body has %d) with diagnostics: %s %s", im.name, len(ja), len(attrSet), trunc(diagStr(d2), 200), trunc(diagStr(jd2), 300)), nil)
 				return
 			}
-			c.Count("remainder-just-attributes-held")
+			if !strings.Contains(im.name, "array-form") {
+				c.Count("remainder-just-attributes-held")
+			}
+		}
+		// -------- a later step that mentions what an earlier step consumed: the
+		// item is gone from the remainder (a required argument is then missing,
+		// a block type yields nothing), in every implementation
+		if !labelMismatch && len(attrSet) > 0 && (ii == 0 || strings.HasPrefix(im.name, "json")) {
+			// (the two-step law of the property is stated for disjoint schemas; what
+			// is decided here is only that the two SYNTAXES answer this sequence of
+			// calls alike, the native answer being the reference)
+			x := gen.SortedKeys(attrSet)[0]
+			s1 := &hcl.BodySchema{Attributes: []hcl.AttributeSchema{{Name: x}}}
+			for _, t := range gen.SortedKeys(blockSet) {
+				if len(s1.Blocks) == 0 {
+					s1.Blocks = append(s1.Blocks, hcl.BlockHeaderSchema{Type: t, LabelNames: labelNames(labelCounts[t])})
+				}
+			}
+			for _, req := range []bool{true, false} {
+				s2 := &hcl.BodySchema{Attributes: []hcl.AttributeSchema{{Name: x, Required: req}}}
+				for _, n := range gen.SortedKeys(attrSet) {
+					if n != x {
+						s2.Attributes = append(s2.Attributes, hcl.AttributeSchema{Name: n})
+					}
+				}
+				for _, t := range gen.SortedKeys(blockSet) {
+					s2.Blocks = append(s2.Blocks, hcl.BlockHeaderSchema{Type: t, LabelNames: labelNames(labelCounts[t])})
+				}
+				_, remX, dX := im.body.PartialContent(s1)
+				if dX.HasErrors() {
+					break
+				}
+				contX, dY := remX.Content(s2)
+				c.Evals(2)
+				ax, bx := contentSigOf(contX)
+				again := ax[x]
+				if len(s1.Blocks) > 0 && len(bx[s1.Blocks[0].Type]) > 0 {
+					again = true
+				}
+				if again {
+					c.Violation("consumed-item-returned-again/"+implKind(im.name), fmt.Sprintf("%s: after PartialContent(%s) the remainder still yields the consumed item: %s", im.name, schemaStr(s1), sigString(ax, bx)), nil)
+					return
+				}
+				if ii == 0 {
+					nativeConsumed[req] = dY.HasErrors()
+				} else if want, ok := nativeConsumed[req]; ok && dY.HasErrors() != want {
+					c.Violation("consumed-required-argument/"+implKind(im.name), fmt.Sprintf("%s: after PartialContent(%s), Content on the remainder with %q required=%v reports errors=%v (%s); the native syntax reports errors=%v for the same calls", im.name, schemaStr(s1), x, req, dY.HasErrors(), trunc(diagStr(dY), 200), want), nil)
+					return
+				}
+			}
+			c.Count("consumed-items-stay-consumed")
 		}
 		// -------- k-step chain vs one step
 		var cur hcl.Body = im.body
